@@ -40,10 +40,12 @@ OPEN == 1  UPDATE == 2  NOTIFICATION == 3  KEEPALIVE == 4  REFRESH == 5
 \* Classes of things the remote end can put on the transport (harness/sessioncheck.py builds the bytes).
 Classes == { "OPEN", "OPEN-version", "OPEN-as", "OPEN-id", "OPEN-hold", "OPEN-trunc",
              "KA", "UPD", "UPD-eor", "UPD-reset", "UPD-tolerated", "NOTIF", "REFRESH",
-             "HDR-marker", "HDR-length", "HDR-type", "EOF" }
+             "HDR-marker", "HDR-length", "HDR-type", "EOF",
+             "UPD-4097",          \* well-formed UPDATE of 4097 bytes on a session that negotiated extended messages
+             "HDR-length-4097" }  \* the same bytes where extended messages were not negotiated by both sides: 1/2
 
 TypeOf(c) == CASE c \in {"OPEN", "OPEN-version", "OPEN-as", "OPEN-id", "OPEN-hold", "OPEN-trunc"} -> OPEN
-               [] c \in {"UPD", "UPD-eor", "UPD-reset", "UPD-tolerated"} -> UPDATE
+               [] c \in {"UPD", "UPD-eor", "UPD-reset", "UPD-tolerated", "UPD-4097"} -> UPDATE
                [] c = "KA" -> KEEPALIVE
                [] c = "NOTIF" -> NOTIFICATION
                [] c = "REFRESH" -> REFRESH
@@ -61,7 +63,7 @@ OpenErr(c) == CASE c = "OPEN-version" -> {<<2, {1}>>}
                 [] OTHER -> {}
 Required(c, s) ==
     CASE c = "HDR-marker" -> {<<1, {1}>>}
-      [] c = "HDR-length" -> {<<1, {2}>>}
+      [] c \in {"HDR-length", "HDR-length-4097"} -> {<<1, {2}>>}
       [] c = "HDR-type"   -> {<<1, {3}>>}
       [] c \in {"EOF", "NOTIF"} -> {}
       [] s \in {"OPENSENT", "CONNECT"} /\ c = "OPEN" -> {}
